@@ -455,8 +455,12 @@ func unmarshalYAMLNode(filename string, positions positionIndex, n *yaml.Node, t
 
 				key, ok := keyn.(*syntax.StringNode)
 				if !ok {
-					keyRange := keyn.Syntax().Range()
-					diags.Extend(syntax.Error(keyRange, "mapping keys must be strings", keyn.Syntax().Path()))
+					// keyn is nil if the key could not be decoded at all (an alias, a scalar that does not match its tag).
+					keyRange, keyPath := positions.yamlNodeRange(filename, keyNode), pos.pathString()
+					if keyn != nil {
+						keyRange, keyPath = keyn.Syntax().Range(), keyn.Syntax().Path()
+					}
+					diags.Extend(syntax.Error(keyRange, "mapping keys must be strings", keyPath))
 				}
 
 				value, vdiags := unmarshalYAML(filename, pos, valueNode, tags)
